@@ -24,7 +24,7 @@ from dataclasses import dataclass, field
 from typing import Any, Callable, Dict, List, Optional, Tuple
 
 from . import core
-from .lin import (Atom, DivA, Fn, Lin, ModA, Opaque, Slice, Sym, band, bor, compare,
+from .lin import (Atom, DivA, FltDivA, Fn, Lin, ModA, Opaque, Slice, Sym, band, bor, compare,
                   floordiv, is_pow2, mod, shl, shr)
 
 
@@ -259,6 +259,8 @@ def subst_atom(a: Atom, old: Sym, new: Sym) -> Lin:
         return mod(subst_lin(a.lin, old, new), a.m)
     if isinstance(a, DivA):
         return floordiv(subst_lin(a.lin, old, new), a.m)
+    if isinstance(a, FltDivA):
+        return Lin.of(FltDivA(subst_lin(a.lin, old, new), a.k))
     if isinstance(a, Fn):
         return Lin.of(Fn(a.name, tuple(subst_lin(x, old, new) for x in a.args), a.lo, a.hi))
     return Lin.of(a)
@@ -1455,9 +1457,29 @@ class Interp:
             return self.call_ref(fn, args, kwargs, state, e, rel)
         return Unknown(f"call of {core.src(f)}")
 
+    @staticmethod
+    def float_floor(v: Any) -> Any:
+        """floor / int() of  a / 2**k  for non-negative integers: exact below 2**53, otherwise the quotient of the ROUNDED dividend"""
+        if isinstance(v, Lin):
+            return v
+        if isinstance(v, FloatV) and v.expr[0] == "Div" and v.expr[1][0] == "int" and v.expr[2][0] == "int":
+            l, r = v.expr[1][1], v.expr[2][1]
+            if isinstance(l, Lin) and isinstance(r, Lin) and r.is_const() and r.const > 0 and is_pow2(r.const):
+                lo, hi = l.rng()
+                if lo is not None and lo >= 0:
+                    k = r.const.bit_length() - 1
+                    if hi is not None and hi < (1 << 53):
+                        return floordiv(l, r.const)
+                    return Lin.of(FltDivA(l, k))
+        return None
+
     def call_ref(self, fn: FuncRef, args: List[Any], kwargs: Dict[str, Any], state: State, node: ast.Call, rel: str) -> Any:
         if fn.module == "<builtin>":
             return self.builtin(fn.name, args, kwargs, state, node)
+        if fn.module == "<math>" and fn.name in ("floor", "trunc") and len(args) == 1 and not kwargs:
+            v = self.float_floor(args[0])
+            if v is not None:
+                return v
         if fn.module.startswith("<"):
             return Unknown(f"{fn.module}.{fn.name}")
         hook = self.call_hooks.get(fn.name)
@@ -1556,6 +1578,8 @@ class Interp:
             return EnumV(args[0], start)
         if name == "int" and len(args) == 1 and isinstance(args[0], Lin):
             return args[0]
+        if name == "int" and len(args) == 1 and isinstance(args[0], FloatV) and self.float_floor(args[0]) is not None:
+            return self.float_floor(args[0])
         if name == "abs" and len(args) == 1 and isinstance(args[0], Lin):
             lo, hi = args[0].rng()
             if lo is not None and lo >= 0:
